@@ -61,6 +61,31 @@ def label(spec):
     return spec["name"] + ("[" + flags + "]" if flags else "") + extra
 
 
+def nan_explained_by_constant_draw(ex, D, N, spec, key, u):
+    """True iff every non-finite channel of u comes from a leaf generator with std_one / max_one whose un-normalised twin (same key, flags off) is a finite
+    constant field.  Wrappers are unfolded with their documented key handling (MultiChannel: jax.random.split(key, n); Scaled / Clamping: same key)."""
+    import jax
+    n = spec["name"]
+    if n == "MultiChannel":
+        keys = jax.random.split(key, len(spec["inner"]))
+        c0 = 0
+        for sub, k in zip(spec["inner"], keys):
+            c1 = c0 + iczoo.n_channels(sub)
+            part = u[c0:c1]
+            if not np.all(np.isfinite(part)) and not nan_explained_by_constant_draw(ex, D, N, sub, k, part):
+                return False
+            c0 = c1
+        return True
+    if n in ("Scaled", "Clamping"):
+        return nan_explained_by_constant_draw(ex, D, N, spec["inner"], key, u)
+    kw = spec["kw"]
+    if not (kw.get("std_one") or kw.get("max_one")):
+        return False
+    twin = dict(name=n, kw={k_: v_ for k_, v_ in kw.items() if k_ not in ("std_one", "max_one")})
+    raw = np.asarray(iczoo.build(ex, D, twin)(N, key=key))
+    return bool(np.all(np.isfinite(raw)) and float(np.max(raw) - np.min(raw)) <= 1e-14 * (1 + float(np.max(np.abs(raw)))))
+
+
 def run_gen(case, bus, ex):
     import jax, jax.numpy as jnp
     D, N, spec = case["D"], case["N"], case["spec"]
@@ -80,15 +105,10 @@ def run_gen(case, bus, ex):
         ok_shape = u.shape == (Cexp,) + (N,) * D
         bus.judge("shape_channels", 0.0 if ok_shape else 1.0, 0.5, sig, sample=dict(info, shape=list(u.shape)), witness=dict(winfo, shape=list(u.shape), expected=[Cexp] + [N] * D),
                   msg="" if ok_shape else f"shape {u.shape}, expected {(Cexp,) + (N,) * D}")
-        if not np.all(np.isfinite(u)) and ("inner" not in spec) and (spec["kw"].get("std_one") or spec["kw"].get("max_one")):
-            # unit-std / unit-max of a constant draw is undefined (0/0): classify with the un-normalised twin of the same key
-            twin = dict(name=spec["name"], kw={k: v for k, v in spec["kw"].items() if k not in ("std_one", "max_one")})
-            raw = np.asarray(iczoo.build(ex, D, twin)(N, key=key))
-            if np.all(np.isfinite(raw)) and float(np.max(raw) - np.min(raw)) <= 1e-14 * (1 + float(np.max(np.abs(raw)))):
-                # the property says "finite", so this is reported - as known finding F11 (constant draw normalised to unit std / unit max is 0/0)
-                bus.flag("finite", "non-finite output: unit-std / unit-max normalisation of a constant draw", sig + ("constant draw",),
-                         witness=dict(winfo, degenerate_constant_draw=True, raw_value=float(raw.flat[0])))
-                continue
+        if not np.all(np.isfinite(u)) and nan_explained_by_constant_draw(ex, D, N, spec, key, u):
+            # the property says "finite", so this is reported - as known finding F11 (a constant draw normalised to unit std / unit max is 0/0), also through wrappers
+            bus.flag("finite", "non-finite output: unit-std / unit-max normalisation of a constant draw", sig + ("constant draw",), witness=dict(winfo, degenerate_constant_draw=True))
+            continue
         bus.judge("finite", 0.0 if np.all(np.isfinite(u)) else 1.0, 0.5, sig, witness=winfo)
         u2 = np.asarray(gen(N, key=key))
         bus.judge("deterministic", 0.0 if np.array_equal(u, u2, equal_nan=True) else 1.0, 0.5, sig + ("same key",), witness=winfo)
